@@ -30,6 +30,9 @@ for p in sorted(glob.glob(src + '/benign-*.diff')):
         print(name, 'ALARMS: %s' % {k: [(v['rule'], v['instance'][:60]) for v in vs] for k, vs in alarms.items()} if alarms else 'quiet')
     finally:
         subprocess.run(['git', '-C', REPO, 'checkout', '--', '.'], check=True)
-        json.dump(results, open(res_path, 'w'), indent=1, sort_keys=True)
+        cur = json.load(open(res_path)) if os.path.exists(res_path) else {}   # merge: several runners may work on different sets
+        if name in results:
+            cur[name] = results[name]
+        json.dump(cur, open(res_path, 'w'), indent=1, sort_keys=True)
 if os.path.exists(src + '/index.json'):
     subprocess.run(['cp', src + '/index.json', V + '/benign/' + tag + '/index.json'])
